@@ -127,6 +127,15 @@ func c04Check(t *rapid.T, unit string, o vrOpts, npk int) {
 	if len(c.Program.Rules) < len(p.Rules) {
 		progTouched["fewer_rules_after"] = true
 	}
+	for _, r := range p.Rules {
+		for _, cnd := range r.Conds {
+			for _, v := range cnd.Vals {
+				if v.Key == "regex" && v.Val != strings.ToLower(v.Val) {
+					progTouched["case_significant_regex"] = true
+				}
+			}
+		}
+	}
 	for k := range progTouched {
 		vkClass(unit, "prog_"+k)
 	}
